@@ -384,6 +384,28 @@ def run(chk):
             chk.distinct.add(json.dumps(["quic", res["suite"], res.get("seed"), f], sort_keys=True))
             for b in fr["bad"]:
                 chk.violation(f"QUIC victim (suite {res['suite']}) fault {f}: {b}", dict(quic_victim=res["suite"], seed=res.get("seed"), fault=f, finding=b))
+    # named unsupported inputs (outside C01's claim, inside C03's): TLS 1.3 KeyUpdate (the direction goes dark after it -- exactly the data
+    # sent before it is exported, the other direction is complete) and HelloRetryRequest.  TLC checks the implementation-shaped model,
+    # behaviours are replayed and the export must equal the model's prediction (which is a prefix of the data sent).
+    U = dict(c01.BASE, Vers='{"TLS13"}', Fams='{"AEAD","CHACHA"}', Unsup='{"keyupdate","hrr"}')
+    r = tlc.run("TlsSession", dict(U, MaxApp="3" if quick else "4"), invariants=["ExportedIsPrefix", "NeverGarbage", "NeverCrashes", "KeyUpdateDark", "ExportedEqualsSent"],
+                properties=["ExportMonotone"], view="View", timeout=1500)
+    chk.tlc("TlsSession with KeyUpdate / HelloRetryRequest", r)
+    g = tlc.run("TlsSession", dict(U, MaxApp="4", EmitOn="TRUE"), invariants=["Emit"], simulate=(150 if quick else 2000, 30), workers=1, seed=chk.seed, timeout=600)
+    chk.tlc("TlsSession generate KeyUpdate / HelloRetryRequest", g)
+    ub = [b for b in {json.dumps(b, sort_keys=True): b for b in g.printed}.values() if b["ku"] or b["hrr"]]
+    rng.shuffle(ub)
+    nun = 0
+    for res in pool_map(c01._run_one, [(b, c01.conn_desc(b, rng)) for b in ub[: 150 if quick else 3000]]):
+        if "machinery" in res:
+            raise Exception("replay failed in the harness: " + res["machinery"])
+        chk.evaluations += 1
+        nun += 1
+        kinds["unsupported_tls13"] = kinds.get("unsupported_tls13", 0) + 1
+        chk.distinct.add(json.dumps(["unsup", res["beh"]["ku"], res["beh"]["hrr"], res["sc"]["conns"][0]["seed"]]))
+        if not res["ok"]:
+            chk.violation(f"TLS 1.3 connection with KeyUpdate of {res['beh']['ku']} / HelloRetryRequest={res['beh']['hrr']}: {res['why']} "
+                          f"(expected: exactly the data sent before the key update)", dict(scenario=res["sc"], behaviour=res["beh"], why=res["why"]))
     chk.extra["faults_by_kind"] = kinds
     chk.rule = ("single faults {drop packet i, cut before/after i, every subset of the victim's key-log lines, random secrets, unknown suite, "
                 "byte corruption / truncation at header, hello-field, body positions of every victim packet, plain HTTP on 443, UDP "
